@@ -127,6 +127,10 @@ def gen_sequential(rng, seq=None):
             cmd = [name, t]
         else:
             cmd = [name]
+        if seq is None and name == "initialize" and rng.random() < 0.08:
+            # fault: the user's construct_model raises once, the caller retries
+            cmds.append(["initialize_failing"])
+            cmds.append(["settle"])
         exp = devscommon.ref_apply(ref, cmd)
         if exp is None and cmd[0].startswith("run_up_to"):
             # keep the reference usable for argument generation
@@ -141,6 +145,30 @@ CB_CMDS = [["stop"], ["stop"], ["stop"], ["start"], ["step"], ["run_up_to", 4.0]
            ["initialize"], ["end_replication"]]
 LISTENER_TYPES = ["START_REPLICATION", "STARTING", "START", "STOPPING", "STOP",
                   "TIME_CHANGED", "WARMUP", "END_REPLICATION"]
+
+
+def _pause_then_step(rng, prog, case):
+    """Directed shape: a handler pauses the run, the caller sees STOPPED and calls
+    step() at once; the handler executed by that step (often) ends the replication."""
+    probe = {"program": prog, "strategy": 3}
+    ref = devscommon.make_ref(probe)
+    ref.initialize()
+    ref.run(ref.end, True)
+    order = [e for t, e in ref.trace if e != "W"]
+    if len(order) < 2:
+        return None
+    k = rng.randint(1, len(order) - 1)
+    case["pause_at"] = [k]
+    case.pop("listener_cmds", None)
+    if rng.random() < 0.7:
+        al = prog["events"].get(str(order[k]))
+        if al is not None:
+            al.insert(rng.choice([0, len(al)]), ["cmd", "end_replication"])
+    cmds = [["start"], ["poll_stopped"]]
+    for _ in range(rng.randint(1, 2)):
+        cmds.append(["step"])
+    cmds += [["settle"], ["drain", 8], ["settle"]]
+    return cmds
 
 
 def gen_overlap(rng, seed, tier):
@@ -199,7 +227,12 @@ def gen_overlap(rng, seed, tier):
             # (documented relaxation): keep exclusive bounds before the end
             t = end - 1
         return int(t) if prog["clock"] == "int" else t
-    if shape < 0.2:
+    directed = None
+    if shape < 0.08:
+        directed = _pause_then_step(rng, prog, case)
+    if directed is not None:
+        cmds += directed
+    elif shape < 0.2:
         for _ in range(rng.randint(1, 4)):
             cmds += [["start"], ["stop"]]
     elif shape < 0.3:
@@ -237,6 +270,16 @@ def gen_overlap(rng, seed, tier):
         # fault 'eager poller' (see simrun.Runner._eager)
         sc["eager"] = [rng.choice([0.5, 0.01]),
                        rng.choice([0, 1, 2, 3, 4, 6, 8, 10, 12, 15, 20, 25, 30, 40, 60])]
+    if rng.random() < 0.2:
+        # pre-emption between bytecodes of simulator.py instead of between lines
+        sc["opcodes"] = True
+    if directed is not None:
+        # the caller reacts to the published pause at once; the run thread, still
+        # in the tail of its iteration, is descheduled for about one step()
+        sc["eager"] = [rng.choice([0.0005, 0.002, 0.002, 0.01, 0.05]), rng.randint(0, 30)]
+        sc["opcodes"] = rng.random() < 0.7
+        if not sc["step_cost_us"]:
+            sc["step_cost_us"] = rng.choice([1, 10, 10, 100])
     case["sched"] = sc
     return case
 
